@@ -76,6 +76,7 @@ class Grammar:
         self.starting_symbol = starting_symbol
         self.distanceToTerminal = {int: 0, str: 0, float: 0, bool: 0}
         self.all_nodes = set()
+        self.ordered_nodes: list[type] = []  # all_nodes in registration order (sets of types iterate by address)
         self.recursive_prods = set()
         self.terminals = set()
         self.non_terminals = set()
@@ -134,6 +135,7 @@ class Grammar:
                 self.register_type(p)
             return
         self.all_nodes.add(ty)
+        self.ordered_nodes.append(ty)
 
         parent = ty.mro()[1]
         if parent not in [object, ABC, Generic, int, bool, float, str]:
@@ -217,8 +219,14 @@ class Grammar:
                     yield from self.collect_types(argt)
                 # TODO: This does not support mutually recursive types.
 
-    def get_all_mentioned_symbols(self) -> set[type]:
-        return {x for t in self.get_all_symbols()[2] for x in self.collect_types(t)}
+    def get_all_mentioned_symbols(self) -> list[type]:
+        """All symbols mentioned in the grammar, without repetitions, in a reproducible order."""
+        symbols = list(self.alternatives.keys()) + [v for vv in self.alternatives.values() for v in vv] + self.ordered_nodes
+        mentioned: dict[type, None] = {}
+        for t in symbols:
+            for x in self.collect_types(t):
+                mentioned.setdefault(x)
+        return list(mentioned)
 
     def get_distance_to_terminal(self, ty: type) -> int:
         """Returns the current distance to terminal of a given type."""
